@@ -32,6 +32,8 @@ type poolCfg struct {
 	Pre        []int // addresses on pre-attached ENIs (len <= Slots)
 	PreV6      []int
 	Trunk      bool // first pre-attached ENI is the trunk
+	StrayTrunk bool // the last pre-attached ENI is a trunk-type interface the daemon does not run as its trunk (plain slot)
+	StrayERDMA bool // ... or an RDMA interface on a node whose configuration has RDMA switched off (plain slot)
 	ERDMA      bool // one extra slot of type erdma (pre-attached)
 	Cap, Batch int
 	MinIdle    int
@@ -487,10 +489,21 @@ func newPoolHist(c *ctxT, prop string, hid int, cfg poolCfg, seed int64) *poolHi
 		if i == 0 && cfg.Trunk {
 			typ = "trunk"
 		}
-		d := h.cloud.Preattach(typ, n4, n6)
+		ctyp := typ
+		if cfg.StrayTrunk && typ == "secondary" && i == len(cfg.Pre)-1 {
+			// trunking switched off (or another trunk selected) after the node got this one: builder.go wraps it
+			// in a plain slot, only daemon.ENI.Trunk says what it is
+			ctyp = "trunk"
+		} else if cfg.StrayERDMA && !cfg.ERDMA && typ == "secondary" && i == len(cfg.Pre)-1 {
+			ctyp = "erdma"
+		}
+		d := h.cloud.Preattach(ctyp, n4, n6)
 		h.seedIssued(d.ID)
 		lo := eni.NewLocal(d, typ, h.cloud, pc)
 		h.locals = append(h.locals, lo)
+		if ctyp != typ {
+			h.mon.special[d.ID] = ctyp
+		}
 		if typ == "trunk" {
 			h.mon.special[d.ID] = "trunk"
 			nis = append(nis, eni.NewTrunk(nil, lo))
@@ -912,6 +925,8 @@ func genPoolCfg(rng *rand.Rand, edge bool) poolCfg {
 		}
 	}
 	cfg.Trunk = npre > 0 && rng.Intn(4) == 0
+	cfg.StrayTrunk = npre > 0 && rng.Intn(5) == 0
+	cfg.StrayERDMA = npre > 0 && !cfg.StrayTrunk && rng.Intn(5) == 0
 	cfg.ERDMA = cfg.V4 && !cfg.V6 && rng.Intn(6) == 0
 	capac := cfg.Slots * cfg.Cap
 	cfg.MinIdle = rng.Intn(capac/2 + 1)
